@@ -251,6 +251,19 @@ func GoBigInt(r *core.Rand) *big.Int {
 		return z
 	}
 	n := 1 + r.Intn(200)
+	if r.Chance(1, 5) {
+		// wider than the 512 bits cty parses decimals at: a big.Int must still come back bit for bit
+		n = 500 + r.Intn(1600)
+		if r.Chance(1, 3) {
+			// 2^k + 1: only the two end bits set, so any rounding to a fixed mantissa width loses the low one
+			z.Lsh(big.NewInt(1), uint(n))
+			z.Add(z, big.NewInt(1))
+			if r.Bool() {
+				z.Neg(z)
+			}
+			return z
+		}
+	}
 	for z.BitLen() < n {
 		z.Lsh(z, 64)
 		z.Or(z, new(big.Int).SetUint64(r.Uint64()))
